@@ -21,6 +21,13 @@ class Sim:
     def pay(self): return self.rng.randrange(1, self.paymax + 1)
     def key(self): return self.rng.choice(self.keypool)
     def emit(self, s): self.lines.append(s)
+    def kt(self, kind):
+        """kind token with element types: p = small probe, g = large probe (owned pointer beyond the first 16 bytes);
+        maps mix the two so that key and value slots have different sizes in both orders"""
+        r = self.rng.random()
+        if kind in 'AL': return kind + ('' if r < 0.4 else 'g' if r < 0.8 else 'p')
+        if kind in 'TR': return kind + ('' if r < 0.2 else self.rng.choice(['pg', 'pg', 'gp', 'gp', 'gg']))
+        return kind
     # ---- creation
     def new(self, kind):
         c = self.free()
@@ -28,21 +35,23 @@ class Sim:
         self.k[c] = kind
         if kind in 'ALB': self.seq[c] = []
         else: self.map[c] = {}
-        self.emit(f'new {c} {kind}')
+        self.emit(f'new {c} {self.kt(kind)}')
         return c
     def newv(self, kind, n):
         c = self.free()
         if c is None: return
         ps = [self.pay() for _ in range(n)]
         self.k[c] = kind; self.seq[c] = list(ps)
-        self.emit(f'newv {c} {kind} ' + ' '.join(map(str, ps)) if ps else f'newv {c} {kind}')
+        kt = self.kt(kind)
+        self.emit(f'newv {c} {kt} ' + ' '.join(map(str, ps)) if ps else f'newv {c} {kt}')
     def newm(self, kind, n):
         c = self.free()
         if c is None: return
         kv = [(self.key(), self.pay()) for _ in range(n)]
         self.k[c] = kind; self.map[c] = {}
         for a, b in kv: self.map[c][a] = b
-        self.emit(f'newm {c} {kind} ' + ' '.join(f'{a} {b}' for a, b in kv) if kv else f'newm {c} {kind}')
+        kt = self.kt(kind)
+        self.emit(f'newm {c} {kt} ' + ' '.join(f'{a} {b}' for a, b in kv) if kv else f'newm {c} {kt}')
     def box(self):
         c = self.free()
         if c is None: return
@@ -191,11 +200,11 @@ def history(rng, nops, weights, paymax=40, keypool=None, maxlen=40, big=False, f
     return s.lines
 
 
-def growth(rng, n, kind):
+def growth(rng, n, kind, types=''):
     """grow one container to n elements (realloc growth / rehash through the prime table), copy it, shrink it"""
     L = []
     if kind in 'AL':
-        L.append(f'new 0 {kind}')
+        L.append(f'new 0 {kind}{types}')
         L += [f'push 0 {rng.randrange(1, 1000)}' for _ in range(n)]
         L += ['copy 1 0', f'new 2 {"L" if kind == "A" else "A"}', 'assign 2 0', 'concat 2 1']
         if kind == 'A': L.append('sort 0')
@@ -203,7 +212,7 @@ def growth(rng, n, kind):
         L += [f'resize 0 {n // 4}', 'pop 0', 'assign 1 2', 'resize 2 0']
     else:
         keys = list(range(1, n + 1)); rng.shuffle(keys)
-        L.append(f'new 0 {kind}')
+        L.append(f'new 0 {kind}{types}')
         L += [f'mset 0 {k} {rng.randrange(1, 1000)}' for k in keys]
         L += ['copy 1 0', f'new 2 {"R" if kind == "T" else "T"}', 'assign 2 0']
         L += [f'mset 0 {rng.choice(keys)} {rng.randrange(1, 1000)}' for _ in range(n // 3)]      # replace / in place
@@ -237,7 +246,7 @@ class C05(Spec):
                   'Not modelled: slot layout of Table / shape of Tree (C02/C03), capacity.')
     rule = ('histories over up to 12 simultaneously live containers of all kinds (Array, List, Table, Tree of probe elements; Array of Box; '
             'stand-alone Box): (a) mixed, (b) sequence-heavy (push/push_at/pop/pop_at/set/rem/resize/sort/concat/assign Array<->List), '
-            '(c) map-heavy with 36 keys sharing 6 hash values (clusters, displacement, replace of existing keys, rem with backward shift, '
+            '(two probe element types of different size — 24 and 48 bytes, the larger with guard words around its owned pointer — in every key/value/element position); (c) map-heavy with 36 keys sharing 6 hash values (clusters, displacement, replace of existing keys, rem with backward shift, '
             'explicit resize, rehash up and down, assign Table<->Tree), (d) growth to n elements then copy and shrink, (e) Box containers, '
             '(f) error-heavy (25% failing calls: empty pop, bad index, absent key/element, refused resize), read-only probes (len/iteration/get/mem/hash/eq '
             'must cause no ownership event), plus constructors with initial '
@@ -272,7 +281,8 @@ class C05(Spec):
         for n in sizes:
             for k in 'ALTR':
                 if n > 2500 and k in 'TR': continue      # the per-op reference comparison of a map is O(n log n)
-                add(f'grow{k}{n}', growth(rng, n * min(boost, 2), k))
+                ty = rng.choice(['', 'g']) if k in 'AL' else rng.choice(['pg', 'gp', 'gg', ''])
+                add(f'grow{k}{ty}{n}', growth(rng, n * min(boost, 2), k, ty))
         return cs
 
     @staticmethod
